@@ -7,11 +7,11 @@ import "unsafe"
 // RaceBuild reports whether the binary carries the Go race detector.
 const RaceBuild = false
 
-func RaceDisable()                       {}
-func RaceEnable()                        {}
-func RaceAcquire(p unsafe.Pointer)       {}
-func RaceRelease(p unsafe.Pointer)       {}
-func RaceReleaseMerge(p unsafe.Pointer)  {}
-func RaceRead(p unsafe.Pointer)          {}
-func RaceWrite(p unsafe.Pointer)         {}
-func RaceErrors() int                    { return 0 }
+func RaceDisable()                      {}
+func RaceEnable()                       {}
+func RaceAcquire(p unsafe.Pointer)      {}
+func RaceRelease(p unsafe.Pointer)      {}
+func RaceReleaseMerge(p unsafe.Pointer) {}
+func RaceRead(p unsafe.Pointer)         {}
+func RaceWrite(p unsafe.Pointer)        {}
+func RaceErrors() int                   { return 0 }
